@@ -82,9 +82,6 @@ mut("C08", "wait-not-blocking-when-reentered",
                     "\t\t\treturn PT_WAITING;", "\t\t}", "\tcase __LINE__:", "\t\t;", "\t} while (0)"))],
     r"C08 T2")
 mut("C08", "wait-returns-yielded", [(PT, _WAIT, _WAIT.replace("return PT_WAITING;", "return PT_YIELDED;"))], r"C08 (T2|T4|T5|T6|CALLEE)")
-mut("C08", "wait-label-before-return",
-    [(PT, _WAIT, _m("#define PT_WAIT()", "\tdo {", "\t\t*missing_PT_BEGIN = __LINE__;", "\tcase __LINE__:", "\t\treturn PT_WAITING;", "\t} while (0)"))],
-    r"C08 (T2|T4|T5|T6|CALLEE)")
 mut("C08", "spawn-no-reinit-when-reentered",
     [(PT, _SPAWN_HEAD, _SPAWN_HEAD.replace("\t\tPT_INIT(child);  ", "\t\tif (*missing_PT_BEGIN != __LINE__) PT_INIT(child);  "))],
     r"C08 (T3|MID|T6)")
@@ -94,11 +91,9 @@ mut("C08", "fail-returns-exited", [(PT, "\t\treturn PT_FAILED; ", "\t\treturn PT
 mut("C08", "exit-on-inverted", [(PT, "\t\tif (x)                                                         \\\n\t\t\tPT_EXIT();", "\t\tif (!(x))                                                      \\\n\t\t\tPT_EXIT();")], r"C08 (LEAF|T3|T4|MID|T6)")
 mut("C08", "call-no-init", [(PT, _CALL, _CALL.replace("\t\tPT_INIT(child);  ", "\t\t(void)(child);  "))], r"C08 T5")
 mut("C08", "call-stops-at-first-wait", [(PT, _CALL, _CALL.replace("while ((thread) < PT_EXITED)   ", "while ((thread) == PT_YIELDED)"))], r"C08 T5")
-mut("C08", "yield-not-blocking-when-reentered",
-    [(PT, "\t\t*missing_PT_BEGIN = __LINE__;                                  \\\n\t\treturn PT_YIELDED; ",
-      "\t\tif (*missing_PT_BEGIN != __LINE__) {                           \\\n\t\t*missing_PT_BEGIN = __LINE__;                                  \\\n\t\treturn PT_YIELDED; }")],
-    r"C08 (T1|CALLEE|MID)")
-mut("C08", "begin-fibre-wrong-field", [("include/librfn/fibre.h", "#define PT_BEGIN_FIBRE(f) PT_BEGIN(&((f)->priv))", "#define PT_BEGIN_FIBRE(f) PT_BEGIN(&((f)->state))")], r"C08 T7")
+# tried and rejected because `make check` kills them (INVALID): PT_YIELD that does not block when its own label is the saved one
+# (tests/fibretest.c yields in a loop) and PT_BEGIN_FIBRE switching on fibre_t.state instead of .priv (fibretest, fibredemotest);
+# a PT_WAIT whose label sits before the return (never resumes) is caught as well but makes PT_CALL spin forever in the native replay.
 
 # --- the mutants named in DESIGN.md's tier plan that tests/protothreadstest.c kills as well (its wait_thread pins the number of condition
 #     evaluations, its spawn_thread re-uses one child for four spawns and checks every relayed code): machinery tests only, skip_tests=True
@@ -107,3 +102,18 @@ mut("C08", "wait-until-label-after-condition",
     r"C08 (LEAF|T1|T7|CALLEE).*(PT_WAIT_UNTIL|continues immediately)", skip_tests=True)
 mut("C08", "spawn-without-init", [(PT, _SPAWN_HEAD, _SPAWN_HEAD.replace("\t\tPT_INIT(child);  ", "\t\t(void)(child);  "))], r"C08 (T3|T4|MID|T6)", skip_tests=True)
 mut("C08", "yield-returns-waiting", [(PT, "\t\treturn PT_YIELDED; ", "\t\treturn PT_WAITING; ")], r"C08 (LEAF|T1|T3|T4|T5|CALLEE|MID|T6|T7)", skip_tests=True)
+
+
+claim("C08", "other",
+      "per-template step contracts: ten template protothreads built from the real PT_* macros (protothreads.h, PT_BEGIN_FIBRE of fibre.h), each checked by CBMC "
+      "against a hand-written explicit state machine from every abstract program point, induction over the number of invocations",
+      "NOT a proof over all protothread bodies: the `programs` quantifier is covered by ten templates only (T1 yield inside conditional/loop/conditional + wait-until in the other arm; "
+      "T2 two waits in a row and waits in nested loops; T3 spawn inside a loop with PT_CHILD_OK; T4 spawn-and-check, exit-on/fail-on, exit/fail; T5 PT_CALL inside a loop; "
+      "T6 two-level spawn; T7 PT_BEGIN_FIBRE; and the child templates LEAF, CALLEE, MID on their own). For each template the result is complete: for all values of the persistent "
+      "variables, of the polled environment and of stale child state, and from every saved resume point, one invocation of the real function returns the same code, performs exactly the "
+      "same sequence of effects, leaves the same variables and saves the resume label of the point where the sequential program cut at its blocking points stops; the correspondence is "
+      "re-established by every step, so any number of invocations follows by induction from PT_INIT.",
+      "Trusted: the hand-written state machines as the meaning of each template; CBMC. Resume labels are learned from a scripted run of the real function, not hard-coded. "
+      "Loops that can iterate without blocking have constant bounds 3-4 (unwound completely). PT_CALL stores no result, so only 'runs the child from its beginning to completion' is checked for it. "
+      "Nothing is claimed for bodies outside the record's scope (two blocking macros on one line, blocking inside a nested switch, re-invocation after exit without PT_INIT).",
+      "DESIGN.md 5.C08")
